@@ -1,6 +1,7 @@
 (* C13 — Buffered collections stay consistent under concurrent threads.  Property theorems only. *)
 From Coq Require Import List Bool Arith.
-From SC Require Import Model.Conc Proofs.ConcMutex Proofs.ConcFaults.
+From Coq Require Import ZArith.
+From SC Require Import Model.Val Model.Buffer Model.Conc Proofs.ConcMutex Proofs.ConcFaults Proofs.ConcInstances Proofs.TreeDefs Proofs.BufferDefs Proofs.BufferInv.
 Import ListNotations.
 
 (* inside a backend-wide buffered context every mutator of a buffered class holds the class-wide buffer lock
@@ -34,3 +35,27 @@ Print Assumptions C13_well_locked_means.
 Theorem C13_no_deadlock_no_leak : forallb respects_order all_progs = true /\ forallb no_leak all_progs = true.
 Proof. split; [exact table_respects_order|exact table_no_leak]. Qed.
 Print Assumptions C13_no_deadlock_no_leak.
+
+(* the same theorem with the bodies instantiated by Buffer.v's own step function: whatever the schedule of the
+   threads' buffered operations, once no lock is held the buffer machine is in the state reached by executing
+   the completed operations one at a time, in their release order *)
+Theorem C13_buffer_machine_serial : forall strat blen (s0 : bstate) (ths : nat -> list bop) (sched : list nat),
+  let T := fun t => map (buf_op strat blen) (ths t) in
+  let c := exec bstate bres (option bres) (init_config bstate bres (option bres) (fun _ => s0) T) sched in
+  quiescent bstate bres (option bres) c ->
+  forall ops, log_ops strat blen (log bstate bres (option bres) c) ops ->
+    sh bstate bres (option bres) c 0 = fold_left (fun st op => fst (bstep_fn strat blen st op)) ops s0.
+Proof. exact buffered_threads_serial. Qed.
+Print Assumptions C13_buffer_machine_serial.
+
+(* ... so the sequential theorems apply to the outcome of every schedule: the reported size is exact, and it is 0
+   with an empty buffer once the context has exited (C15), for that serial order *)
+Theorem C13_size_back_to_zero : forall strat blen ops s0,
+  acct strat blen s0 ->
+  let s := fold_left (fun st op => fst (bstep_fn strat blen st op)) ops s0 in
+  reg_inv s -> nobody_buffered s -> b_buffer s = [] /\ b_size s = 0%Z.
+Proof.
+  intros strat blen ops s0 HA s HR HN. apply (zero_outside strat blen s); try assumption.
+  exact (run_acct strat blen ops s0 HA).
+Qed.
+Print Assumptions C13_size_back_to_zero.
